@@ -68,3 +68,10 @@ add(
     "Trusts numpy.linalg on <=5x5 well-conditioned matrices and exact finite differences of quadratics (verified at an extra point per probe).",
     "DESIGN.md section 3 C13",
 )
+add(
+    "C14",
+    "property-based testing: generated Deltas and sampling scenarios with a seeded RNG vs. explicit indicator semantics, exact mass identities and dense Gaussian moments",
+    "Bounded exploration of (1) Delta evaluation by substitution at every candidate value, reduction and integration against the point value (unit mass); (2) Tensor.sample over every subset of inputs with -inf entries and 0-2 particle inputs: type, support, exact mass for every batch element and particle, determinism; (3) Gaussian.sample: mass vs the closed-form marginal, determinism, and reparametrised samples recovered as an affine map of the noise with exactly the Gaussian's mean and covariance.",
+    "Trusts numpy's seeded global RNG as the only randomness of the numpy backend, the C13 dense closed forms, and Delta.terms for locating sample points.",
+    "DESIGN.md section 3 C14",
+)
